@@ -52,6 +52,8 @@ FrameRules(e) ==
        \o If("gen" \in DOMAIN e /\ e.hw > e.gen, "FrameIdBeyondGenerated")
        \* C17 on a camera re-configured while a frame call is pending (the harness compares the caller's buffer with the shape
        \* reported together with the frame, exp bytes): nothing written past them, filled to the end
+       \* never the same frame twice: the random camera delivered the image of the previous frame call again (the ids may increase)
+       \o If("dup" \in DOMAIN e /\ e.dup, "FrameSameImageTwice")
        \o If("past" \in DOMAIN e /\ e.past, "FrameWritesPastImage")
        \o If("filled" \in DOMAIN e /\ ~e.filled, "FrameNotFilled")
 
